@@ -18,7 +18,13 @@
 // ("held by every caller"), and every call site with the locks held there, so
 // that the propagation is re-checked by Coq rather than trusted.
 //
-// What this tool does NOT see (trusted / out of scope, see notes/C17.md):
+// Tracked besides the runners: the configuration values httpserver.Config, httpserver.Route and
+// composite.Config (policy: written only in constructors/options).
+//
+// What this tool does NOT see (trusted / out of scope, see notes/C17.md): local variables captured by
+// goroutine closures, package-level variables, fields of structs that are not in trackedStructs
+// (httpserver.RequestProcessor, middleware state, ...), a reference read under a lock and
+// dereferenced after the unlock,
 // aliasing of a field's address, reflection, unsafe, accesses performed by
 // dependencies through pointers handed to them, calls through function values.
 // A `go func(){...}` body, a `wg.Go(func(){...})` body and any function literal
@@ -61,6 +67,9 @@ var trackedStructs = map[string]bool{
 	"httpcluster.Runner":      true,
 	"httpcluster.entries":     true,
 	"httpcluster.serverEntry": true,
+	"httpserver.Config":       true,
+	"httpserver.Route":        true,
+	"composite.Config":        true,
 }
 
 type listPkg struct {
@@ -204,11 +213,14 @@ type funcDecl struct {
 	Ctor      bool
 	Closure   string // "" | "go" | "lit" | "defer"
 	Entry     []lockRef
-	File      string // source range of the context (JSON sidecar only; never emitted to Coq)
-	Start     int
-	End       int
-	recvObj   types.Object
-	isTop     bool
+	// EntryConds: history facts "set:$.f" that hold at every call of this context (greatest consistent
+	// claim, computed by propagateConds from the call sites and re-checked by Coq: Race.cond_entry_failures)
+	EntryConds []string
+	File       string // source range of the context (JSON sidecar only; never emitted to Coq)
+	Start      int
+	End        int
+	recvObj    types.Object
+	isTop      bool
 }
 
 type callSite struct {
@@ -217,6 +229,10 @@ type callSite struct {
 	SameRecv       bool
 	Spawn          bool
 	Dbg            string
+	// Conds: history facts known lexically at the call (about the callee's receiver); Inherit: the callee's "$"
+	// is the caller's "$" (same receiver object, or a closure of the caller), so the caller's entry facts carry over
+	Conds   []string
+	Inherit bool
 }
 
 type site struct {
@@ -310,6 +326,11 @@ func (s *state) add(h heldLock) {
 }
 
 // release removes the most recent holding of (obj,name); mode is not checked.
+// When nothing matches (an Unlock of a lock this function context did not take, e.g. a helper releasing
+// a lock on behalf of its caller) the state is left as it is: the Unlock site itself has already been
+// recorded with a lexical lock set that LACKS the lock, and coq/model/Race.v `unlock_failures` rejects
+// every table containing such a site - the callers' later sites would otherwise be recorded as still
+// under the lock (audit M11).
 func (s *state) release(obj types.Object, name string) {
 	for i := len(s.held) - 1; i >= 0; i-- {
 		if s.held[i].obj == obj && s.held[i].name == name && !s.held[i].deferred {
@@ -385,6 +406,30 @@ type fnCtx struct {
 	ords              map[string]int
 	frames            []*frame // enclosing breakable statements
 	topName           string
+	// history facts at the normal exits of the function body (nil until the first exit is seen); inLit > 0 while an
+	// inlined literal is being walked (its `return` leaves the literal, not the function)
+	exitFacts []string
+	exitSeen  bool
+	inLit     int
+}
+
+// noteExit intersects the history facts of a normal exit of the function body into c.exitFacts.
+func (c *fnCtx) noteExit(st *state) {
+	if c.inLit > 0 {
+		return
+	}
+	f := st.setFacts()
+	if !c.exitSeen {
+		c.exitSeen, c.exitFacts = true, f
+		return
+	}
+	var out []string
+	for _, x := range c.exitFacts {
+		if hasStr(f, x) {
+			out = append(out, x)
+		}
+	}
+	c.exitFacts = out
 }
 
 type frame struct {
@@ -405,6 +450,10 @@ type analyzer struct {
 	opts     []optApply
 	repo     string
 	lhsNote  string
+	// interprocedural history facts: summ[f] = facts "set:$.x" that hold at every normal return of the declared
+	// method f (from the previous pass over the packages); nextSumm = the ones being computed by this pass
+	summ     map[string][]string
+	nextSumm map[string][]string
 }
 
 func (a *analyzer) pos(p token.Pos) (string, int) {
@@ -553,6 +602,63 @@ func returnsOption(sig *types.Signature) bool {
 
 func isCtorName(name string) bool {
 	return strings.HasPrefix(name, "New") || strings.HasPrefix(name, "new") || strings.HasPrefix(name, "With")
+}
+
+// takesTracked: some parameter is a tracked struct or a pointer to one.
+func takesTracked(sig *types.Signature) bool {
+	for i := 0; i < sig.Params().Len(); i++ {
+		if trackedPtrOrValue(sig.Params().At(i).Type()) {
+			return true
+		}
+	}
+	return false
+}
+
+// trackedPtrOrValue: t is a tracked struct or a pointer to one (instantiations of a generic struct included).
+func trackedPtrOrValue(t types.Type) bool {
+	t = types.Unalias(t)
+	if p, ok := t.(*types.Pointer); ok {
+		t = types.Unalias(p.Elem())
+	}
+	n, ok := t.(*types.Named)
+	if !ok {
+		return false
+	}
+	if _, isStruct := n.Underlying().(*types.Struct); !isStruct {
+		return false
+	}
+	return trackedStructs[structName(n.Origin())]
+}
+
+// optionFuncType: t is (a named or unnamed) function type whose only parameter is a pointer to a tracked struct -
+// the shape of a functional option `func(*T)` / `func(*T) error`, whatever the type is called (Option, ConfigOption ...).
+func optionFuncType(t types.Type) bool {
+	sg, ok := types.Unalias(t).Underlying().(*types.Signature)
+	if !ok {
+		return false
+	}
+	if sg.Params().Len() != 1 || sg.Results().Len() > 1 {
+		return false // an option takes the value under construction and returns nothing (or an error)
+	}
+	p, isPtr := types.Unalias(sg.Params().At(0).Type()).(*types.Pointer)
+	return isPtr && trackedPtrOrValue(p)
+}
+
+// ctorBySignature decides "constructor or functional option of a tracked struct" by TYPE, not by name: a
+// package-level function that returns a tracked struct (or a pointer to one), or that returns a functional option
+// for one.  The value under construction is then whatever the body builds from a fresh literal (c.fresh) or, in an
+// option, the option closure's parameter - a renamed constructor stays a constructor.
+func ctorBySignature(sig *types.Signature) bool {
+	if sig.Recv() != nil {
+		return false
+	}
+	for i := 0; i < sig.Results().Len(); i++ {
+		t := sig.Results().At(i).Type()
+		if trackedPtrOrValue(t) || optionFuncType(t) {
+			return true
+		}
+	}
+	return false
 }
 
 // ifaceMethodNames: names of methods of interfaces declared in the target packages.
@@ -858,8 +964,18 @@ func (a *analyzer) recordCall(c *fnCtx, st *state, call *ast.CallExpr, spawn boo
 	if spawn {
 		locks = nil
 	}
-	a.calls = append(a.calls, callSite{Callee: name, Caller: c.decl.Name, Locks: locks,
-		SameRecv: base != nil && base == c.recvObj && !spawn, Spawn: spawn, Dbg: a.dbg(call.Pos())})
+	same := base != nil && base == c.recvObj
+	cs := callSite{Callee: name, Caller: c.decl.Name, Locks: locks,
+		SameRecv: same && !spawn, Spawn: spawn, Dbg: a.dbg(call.Pos())}
+	if same {
+		// history facts are about "$": they mean the same object in the callee only when the receivers coincide
+		cs.Conds, cs.Inherit = sortedCopy(st.setFacts()), true
+	}
+	a.calls = append(a.calls, cs)
+	if same && !spawn {
+		// what the callee always does before it returns has been done when the call returns
+		st.addConds(a.summ[name])
+	}
 }
 
 // syncInline: callee known to run its function argument synchronously in the caller.
@@ -935,7 +1051,8 @@ func (a *analyzer) closure(c *fnCtx, st *state, lit *ast.FuncLit, kind string) {
 	inner := &state{conds: st.setFacts()}
 	if kind == "go" {
 		// recorded so that Coq can check that a spawned context claims no entry locks
-		a.calls = append(a.calls, callSite{Callee: name, Caller: c.decl.Name, Spawn: true, Dbg: a.dbg(lit.Pos())})
+		a.calls = append(a.calls, callSite{Callee: name, Caller: c.decl.Name, Spawn: true, Dbg: a.dbg(lit.Pos()),
+			Conds: sortedCopy(st.setFacts()), Inherit: true})
 	}
 	if kind == "defer" {
 		// a deferred closure runs before the unlocks that were deferred earlier
@@ -949,7 +1066,8 @@ func (a *analyzer) closure(c *fnCtx, st *state, lit *ast.FuncLit, kind string) {
 			lr = a.locksFor(inner, c.recvObj)
 		}
 		a.calls = append(a.calls, callSite{Callee: name, Caller: c.decl.Name, Locks: lr,
-			SameRecv: c.recvObj != nil, Spawn: false, Dbg: a.dbg(lit.Pos())})
+			SameRecv: c.recvObj != nil, Spawn: false, Dbg: a.dbg(lit.Pos()),
+			Conds: sortedCopy(st.setFacts()), Inherit: true})
 		inner = &state{conds: st.setFacts()} // the locks are carried by the entry set of the defer context
 	}
 	a.walkBlock(sub, inner, lit.Body)
@@ -962,7 +1080,9 @@ func (a *analyzer) inlineLit(c *fnCtx, st *state, lit *ast.FuncLit) {
 	// holdings of the outer function stay; defers inside the literal end with it
 	saved := c.frames
 	c.frames = nil
+	c.inLit++
 	a.walkBlock(c, inner, lit.Body)
+	c.inLit--
 	c.frames = saved
 }
 
@@ -984,7 +1104,8 @@ func (a *analyzer) walkCall(c *fnCtx, st *state, call *ast.CallExpr) {
 	}
 	// option application: a call of a value whose type is a named "Option"
 	if tv, ok := a.info.Types[call.Fun]; ok {
-		if n, isNamed := types.Unalias(tv.Type).(*types.Named); isNamed && n.Obj().Name() == "Option" && isTarget(n.Obj().Pkg().Path()) {
+		if n, isNamed := types.Unalias(tv.Type).(*types.Named); isNamed && n.Obj().Pkg() != nil && isTarget(n.Obj().Pkg().Path()) &&
+			(n.Obj().Name() == "Option" || optionFuncType(n)) {
 			a.opts = append(a.opts, optApply{Func: c.decl.Name, InCtor: c.ctor, Dbg: a.dbg(call.Pos())})
 		}
 	}
@@ -1010,6 +1131,33 @@ func (a *analyzer) walkCall(c *fnCtx, st *state, call *ast.CallExpr) {
 				a.closure(c, st, lit, "lit")
 			}
 			continue
+		}
+		if inlineArgs {
+			// once.Do(p.method) / m.Range(p.method): the method runs synchronously here - a call, not a function value
+			if sel, ok := x.(*ast.SelectorExpr); ok {
+				if sl := a.info.Selections[sel]; sl != nil && sl.Kind() == types.MethodVal {
+					if fn, ok := sl.Obj().(*types.Func); ok {
+						if name, ok := a.funcName[fn.Origin()]; ok {
+							var base types.Object
+							if inner, isSel := sel.X.(*ast.Ident); isSel {
+								base = a.info.Uses[inner]
+							}
+							same := base != nil && base == c.recvObj
+							cs := callSite{Callee: name, Caller: c.decl.Name, Locks: a.locksFor(st, base),
+								SameRecv: same, Dbg: a.dbg(x.Pos())}
+							if same {
+								cs.Conds, cs.Inherit = sortedCopy(st.setFacts()), true
+							}
+							a.calls = append(a.calls, cs)
+							a.walkExpr(c, st, sel.X)
+							if same {
+								st.addConds(a.summ[name])
+							}
+							continue
+						}
+					}
+				}
+			}
 		}
 		if spawnArgs {
 			// wg.Go(p.method): a spawn of that method
@@ -1427,6 +1575,7 @@ func (a *analyzer) walkStmt(c *fnCtx, st *state, s ast.Stmt) bool {
 		for _, r := range x.Results {
 			a.walkExpr(c, st, r)
 		}
+		c.noteExit(st)
 		return true
 	case *ast.BranchStmt:
 		if x.Tok == token.BREAK || x.Tok == token.CONTINUE || x.Tok == token.GOTO {
@@ -1658,7 +1807,13 @@ func (a *analyzer) analyzePackage(path string) {
 			decl.recvObj = c.recvObj
 			decl.File, decl.Start = a.pos(fd.Pos())
 			_, decl.End = a.pos(fd.End())
-			a.walkBlock(c, &state{}, fd.Body)
+			st := &state{}
+			if !a.walkBlock(c, st, fd.Body) {
+				c.noteExit(st) // falling off the end of the body
+			}
+			if c.recvObj != nil && c.exitSeen && len(c.exitFacts) > 0 {
+				a.nextSumm[name] = sortedCopy(c.exitFacts)
+			}
 		}
 	}
 }
@@ -1812,6 +1967,89 @@ func (a *analyzer) propagate() {
 	}
 }
 
+// propagateConds computes the greatest consistent entry history facts of helper contexts: the facts every call site
+// provides, lexically or - when the callee's "$" is the caller's - through the caller's own entry facts.  Spawned
+// contexts take part (a fact of the form "this goroutine or the one that spawned it has executed `$.f = true`"
+// survives a go statement); escaping literals, exported functions and function values claim nothing.
+func (a *analyzer) propagateConds() {
+	callsOf := map[string][]callSite{}
+	for _, c := range a.calls {
+		callsOf[c.Callee] = append(callsOf[c.Callee], c)
+	}
+	eligible := func(name string) bool {
+		f := a.funcs[name]
+		return f != nil && !f.Exported && !f.ValueUsed && len(callsOf[name]) > 0 && f.Closure != "lit"
+	}
+	top := map[string]bool{}
+	names := make([]string, 0, len(a.funcs))
+	for n, f := range a.funcs {
+		names = append(names, n)
+		f.EntryConds = nil
+		if eligible(n) {
+			top[n] = true
+		}
+	}
+	sort.Strings(names)
+	meet := func(x, y []string) []string {
+		var out []string
+		for _, v := range x {
+			if hasStr(y, v) {
+				out = append(out, v)
+			}
+		}
+		return out
+	}
+	for iter := 0; iter < 64; iter++ {
+		changed := false
+		for _, name := range names {
+			if !eligible(name) {
+				continue
+			}
+			f := a.funcs[name]
+			var acc []string
+			first, allTop := true, true
+			for _, c := range callsOf[name] {
+				at := append([]string{}, c.Conds...)
+				if c.Inherit {
+					if top[c.Caller] {
+						continue // caller still unconstrained: does not restrict yet
+					}
+					if cf := a.funcs[c.Caller]; cf != nil {
+						for _, v := range cf.EntryConds {
+							if !hasStr(at, v) {
+								at = append(at, v)
+							}
+						}
+					}
+				}
+				allTop = false
+				if first {
+					acc, first = at, false
+				} else {
+					acc = meet(acc, at)
+				}
+			}
+			if allTop {
+				continue
+			}
+			sort.Strings(acc)
+			if top[name] || strings.Join(acc, "\x00") != strings.Join(f.EntryConds, "\x00") {
+				top[name] = false
+				f.EntryConds = acc
+				changed = true
+			}
+		}
+		if !changed {
+			break
+		}
+	}
+	for name := range top {
+		if top[name] {
+			a.funcs[name].EntryConds = nil
+		}
+	}
+}
+
 func main() {
 	repo := flag.String("repo", "/repo", "root of the go-supervisor checkout")
 	out := flag.String("out", "", "path of the generated AccessTable.v")
@@ -1854,15 +2092,40 @@ func main() {
 		fd.isTop = true
 		fd.Exported = ast.IsExported(fn.Name())
 		sig := fn.Type().(*types.Signature)
-		fd.Ctor = sig.Recv() == nil && (isCtorName(fn.Name()) || returnsOption(sig))
+		// by signature; the historical name heuristic (New*/new*/With*, a result type called Option) is kept only
+		// for package-level functions that do not touch a tracked struct through a parameter (nothing shared to mutate)
+		fd.Ctor = ctorBySignature(sig) || (sig.Recv() == nil && (isCtorName(fn.Name()) || returnsOption(sig)) && !takesTracked(sig))
 		if a.ifaceCallable(fn) {
 			fd.ValueUsed = true
 		}
 	}
-	for _, t := range targetPkgs {
-		a.analyzePackage(modPath + "/" + t)
+	// The packages are walked until the per-method summaries "always executes `$.f = true` before returning" are
+	// stable (a caller's facts after a call depend on the callee's summary): every pass starts from clean tables.
+	a.summ = map[string][]string{}
+	for pass := 0; pass < 5; pass++ {
+		a.calls, a.sites, a.opts = nil, nil, nil
+		for n, f := range a.funcs {
+			if !f.isTop {
+				delete(a.funcs, n) // closure contexts are re-created by the walk
+			}
+		}
+		a.nextSumm = map[string][]string{}
+		for _, t := range targetPkgs {
+			a.analyzePackage(modPath + "/" + t)
+		}
+		same := len(a.summ) == len(a.nextSumm)
+		for k, v := range a.nextSumm {
+			if strings.Join(v, "\x00") != strings.Join(a.summ[k], "\x00") {
+				same = false
+			}
+		}
+		a.summ = a.nextSumm
+		if same {
+			break
+		}
 	}
 	a.propagate()
+	a.propagateConds()
 	if *out != "" {
 		if err := os.WriteFile(*out, []byte(a.emitCoq()), 0o644); err != nil {
 			fmt.Fprintln(os.Stderr, "srcfacts:", err)
@@ -1945,18 +2208,18 @@ func (a *analyzer) emitCoq() string {
 		fmt.Fprintf(&sb, "  mkField %q %q %s (* %s *)%s\n", f.Struct, f.Field, f.Cat, strings.ReplaceAll(f.GoType, "*)", "* )"), sep(i, len(fs)))
 	}
 	sb.WriteString("].\n\n")
-	sb.WriteString("(* mkFunc name exported value_used ctor entry_locks *)\nDefinition funcs : list func_decl := [\n")
+	sb.WriteString("(* mkFuncC name exported value_used ctor entry_locks entry_facts *)\nDefinition funcs : list func_decl := [\n")
 	fns := a.sortedFuncs()
 	for i, f := range fns {
-		fmt.Fprintf(&sb, "  mkFunc %q %s %s %s %s%s\n", f.Name, coqBool(f.Exported), coqBool(f.ValueUsed), coqBool(f.Ctor),
-			lockSetString(f.Entry), sep(i, len(fns)))
+		fmt.Fprintf(&sb, "  mkFuncC %q %s %s %s %s %s%s\n", f.Name, coqBool(f.Exported), coqBool(f.ValueUsed), coqBool(f.Ctor),
+			lockSetString(f.Entry), strList(f.EntryConds), sep(i, len(fns)))
 	}
 	sb.WriteString("].\n\n")
-	sb.WriteString("(* mkCall callee caller locks_held_lexically same_receiver spawn dbg *)\nDefinition calls : list call_site := [\n")
+	sb.WriteString("(* mkCallC callee caller locks_held_lexically same_receiver spawn dbg history_facts_at_call same_dollar *)\nDefinition calls : list call_site := [\n")
 	cs := a.sortedCalls()
 	for i, c := range cs {
-		fmt.Fprintf(&sb, "  mkCall %q %q %s %s %s %q%s\n", c.Callee, c.Caller, lockSetString(c.Locks), coqBool(c.SameRecv),
-			coqBool(c.Spawn), c.Dbg, sep(i, len(cs)))
+		fmt.Fprintf(&sb, "  mkCallC %q %q %s %s %s %q %s %s%s\n", c.Callee, c.Caller, lockSetString(c.Locks), coqBool(c.SameRecv),
+			coqBool(c.Spawn), c.Dbg, strList(c.Conds), coqBool(c.Inherit), sep(i, len(cs)))
 	}
 	sb.WriteString("].\n\n")
 	sb.WriteString("(* mkSite struct field func kind lexical_locks same_receiver prepub ordinal conditions note dbg *)\nDefinition sites : list site := [\n")
